@@ -47,6 +47,13 @@ func propC03(h History) error {
 				case !hiSet:
 					hiSet, hi = true, off
 				case off > hi:
+					// a sequence number that is counted as skipped is one the Stream has not been and is not about to be
+					// given: an event that sits in the buffer at this moment is neither
+					for s := range bk.pending {
+						if so := h.off(s); so > hi && so < off {
+							return fmt.Errorf("op %d (%s): event seq %d is delivered and the sequence numbers after %d are counted as lost, among them %d, whose event is in the buffer at this moment (first record pushed in op %d)", i, o.K, seq, h.Base+hi, s, bk.pending[s].firstOp)
+						}
+					}
 					expected += uint64(off - hi - 1)
 					if h.Base+hi > h.Base+off { // numeric wrap between the two
 						seam = true
@@ -95,4 +102,5 @@ func TestC03(t *testing.T) {
 func TestC03Large(t *testing.T) {
 	runHeldBack(t, hC03, "TestC03", propC03)
 	runLongEvents(t, hC03, "TestC03", propC03)
+	runSeam(t, hC03, "TestC03", propC03)
 }
